@@ -120,15 +120,19 @@ impl Indexable for Vec<Value> {
     }
 
     fn get(&self, index: i64) -> Result<Value, Error> {
-        let index: Result<usize, std::num::TryFromIntError> = if index >= 0 {
-            index.try_into()
+        let i: Option<usize> = if index >= 0 {
+            index.try_into().ok()
         } else {
-            (-index).try_into().map(|i: usize| self.len() - i)
+            // counted from the end; further back than the first element is out of bounds, not an arithmetic trap
+            index
+                .checked_neg()
+                .and_then(|i| usize::try_from(i).ok())
+                .and_then(|i| self.len().checked_sub(i))
         };
-        let i: usize = index.context("failed to cast index from i64")?;
-        if i >= self.len() {
-            bail!("index out of bounds: {}", i)
-        }
+        let i = match i {
+            Some(i) if i < self.len() => i,
+            _ => bail!("index out of bounds: {}", index),
+        };
         Ok(self[i].clone())
     }
 }
